@@ -131,8 +131,8 @@ func (c *Cyclist) stateCopyAndAddBytes(in, out []byte) {
 			if i >= length {
 				return
 			}
-			out[i] = byte(c.s[stateIdx] >> shift)
-			out[i] ^= in[i]
+			// read in[i] before writing out[i]: the operands may be the same buffer
+			out[i] = byte(c.s[stateIdx]>>shift) ^ in[i]
 			i++
 		}
 	}
